@@ -75,7 +75,8 @@ pub fn c31(out: &mut Out, ex: &mut Exec, seed: u64, thorough: bool) {
         let mut prng = rng.fork();
         let prog = crate::simprops2::structured(&mut prng, true);
         let seeded = id % 2 == 0;
-        let mseed = rng.below(1 << 30);
+        // boundary seeds are part of the stream: 0 (must be an ordinary seed, not "unseeded"), 1, 2^64-1
+        let mseed = match id % 16 { 0 => 0, 4 => 1, 8 => u64::MAX, _ => rng.below(1 << 30) };
         let fill = rng.u16();
         let mut v = vec![format!("case {id}")];
         v.push(if seeded { format!("sim newseed 0 0 0 0 {}", mseed) } else { format!("sim new 0 {} 0 0 {:04x}", rng.below(2), fill) });
